@@ -693,6 +693,9 @@ func runC03(p *core.Prog, r *core.Report, tier string) {
 		r.Floor("C03.o contexts handed to goroutines and the scheduler", nCtx, 20)
 	}
 
+	// ---- (p) duties obtained keep their jobs: the controller withdraws jobs by full name only (shared with C15.l) ----
+	checkNoPrefixCancel(p, r, "C03.p")
+
 	// ---- (m) the current slot and epoch are the ones that have started: elapsed time is truncated, never rounded
 	// (rounded up, "now" lies before the start of the "current" slot, and the job for that slot is never made) ----
 	checkChainTimeTruncates(p, r, "C03.m", "in the last part of a slot the current slot/epoch is already reported as the next one, so a start-up or refresh at that moment treats the next slot as under way and never creates its job")
